@@ -27,6 +27,9 @@ type c18Input struct {
 	Parallel int `json:"parallel,omitempty"`
 	// MOCKERY_* variables exported in the shell init runs in: they configure a run, the file states the defaults
 	Env [][2]string `json:"env,omitempty"`
+	// a directory above the module holds a configuration file of the *other* spelling (.mockery.yaml) that
+	// configures nothing of this module: the file init writes in the working directory is the nearest one
+	Ancestor bool `json:"ancestor,omitempty"`
 	Content string `json:"content"` // for state == content
 	Target  string `json:"target"`  // "" = default .mockery.yml, else --config value (relative to the module)
 	Pkg     string `json:"pkg"`
@@ -60,6 +63,9 @@ func (c18) Generate(c *Ctx) []any {
 	}
 	for k := 0; k < c.Budget(3, 12); k++ {
 		out = append(out, c18Input{State: "absent", Target: pick(c.Rng, []string{"", "custom.yml"}), Pkg: "example.com/m/foo", Parallel: 4 + c.Rng.Intn(5)})
+	}
+	for k := 0; k < c.Budget(3, 8); k++ {
+		out = append(out, c18Input{State: "absent", Target: "", Pkg: "example.com/m/foo", Follow: true, Ancestor: true})
 	}
 	for k := 0; k < c.Budget(4, 16); k++ {
 		in := c18Input{State: "absent", Target: pick(c.Rng, []string{"", "custom.yml"}), Pkg: "example.com/m/foo", Follow: true}
@@ -102,6 +108,13 @@ func (c18) Run(c *Ctx, raw json.RawMessage) Case {
 		return Case{Oracle: fail("harness", "%v", err)}
 	}
 	defer os.RemoveAll(dir)
+	if in.Ancestor {
+		// <dir>/ws/.mockery.yaml (a workspace-level file for something else), the module in <dir>/ws/mod
+		ws := filepath.Join(dir, "ws")
+		os.MkdirAll(filepath.Join(ws, "mod"), 0o755)
+		os.WriteFile(filepath.Join(ws, ".mockery.yaml"), []byte("all: false\npackages:\n  example.com/elsewhere/legacy:\n"), 0o644)
+		dir = filepath.Join(ws, "mod")
+	}
 	files := map[string]string{"go.mod": goModText, "foo/foo.go": "package foo\n\ntype Reader interface{ Read(p []byte) (int, error) }\n\ntype writer interface{ Write(p []byte) (int, error) }\n\ntype S struct{}\n",
 		"sub/keep.txt": "keep\n"}
 	writeFiles(dir, files)
@@ -186,6 +199,9 @@ func (c18) Run(c *Ctx, raw json.RawMessage) Case {
 	}
 	if len(in.Env) > 0 {
 		tags = append(tags, "env-set")
+	}
+	if in.Ancestor {
+		tags = append(tags, "ancestor-config")
 	}
 	if res.Panicked {
 		return Case{Impl: map[string]any{"panic": true}, Oracle: fail("panic", "init panicked: %s", lastLines(res.Stderr, 5)), Tags: tags}
